@@ -1,3 +1,4 @@
+import RsyncModel.PureTie
 import RsyncModel.MuxThm
 /-! # C17 — multiplex framing is transparent
 
@@ -51,5 +52,15 @@ example : Benign [⟨tagData, []⟩, ⟨tagInfo, [1, 2]⟩, ⟨tagData, [3]⟩, 
     simp at hf
     rcases hf with h | h | h | h <;> subst h <;> decide
   · decide
+
+
+/-! ### Tie to the source (regenerated translation `Gen.Pure`) -/
+
+/-- the header expression of `WriteMsg` and the decoding in `ReadMsg`, translated from /repo on
+every run, are the model's `header`, `tagOf`, `lenOf` -/
+theorem source_header (tag : UInt8) (p bs : Bytes) (t0 : UInt8) :
+    Gen.Pure.muxHeader tag p = header tag p.length ∧
+    Gen.Pure.muxDecode (hdrOf bs) t0 = (tagOf bs, hdrOf bs &&& 0x00FFFFFF) :=
+  ⟨PureTie.muxHeader_tied tag p, PureTie.muxDecode_tied bs t0⟩
 
 end C17
